@@ -21,15 +21,18 @@ pub struct World<F: Fl> {
 }
 
 impl<F: Fl> World<F> {
-    pub fn new(cap: u64) -> World<F> {
+    /// The world is never dropped implicitly (not even when a failed assertion unwinds in the
+    /// native replay): concurrent-phase drops leave stale handle bytes in the slots (see
+    /// `op_drop_tx`), so teardown is always explicit.
+    pub fn new(cap: u64) -> std::mem::ManuallyDrop<World<F>> {
         let (tx, rx) = F::new(cap);
-        World {
+        std::mem::ManuallyDrop::new(World {
             tx: [Some(tx), None, None],
             rx: [Some(rx), None, None, None],
             ux: [None, None],
             rx_stream: [0; NRX],
             ux_stream: [0; NUX],
-        }
+        })
     }
 }
 
